@@ -47,9 +47,9 @@ Print Assumptions C04_optimal.
 (* the hypotheses are satisfiable *)
 Example C04_wf_example :
   let sp := {| p_rooms := 2; p_shelves := [(1, 3); (2, 3)]; p_lb := None; p_ub := Some 1%nat;
-               p_prefs := [ {| pf_form := PVar Aggregate.KWeight; pf_dir := DMaximized; pf_prio := PHigh |};
-                            {| pf_form := PAggPerRoom Agg.ASum; pf_dir := DMinimized; pf_prio := PMedium |};
-                            {| pf_form := PCmp Aggregate.KShelf "greater than" 1; pf_dir := DAsLittle; pf_prio := PLow |} ] |} in
+               p_prefs := [ {| pf_form := PVar Aggregate.KWeight; pf_dir := DMaximized; pf_prio := PHigh; pf_only := [] |};
+                            {| pf_form := PAggPerRoom Agg.ASum; pf_dir := DMinimized; pf_prio := PMedium; pf_only := [] |};
+                            {| pf_form := PCmp Aggregate.KShelf "greater than" 1; pf_dir := DAsLittle; pf_prio := PLow; pf_only := [] |} ] |} in
   wf_pspec sp /\ exists ws, compile_prefs sp = Some ws.
 Proof.
   cbn zeta. split.
